@@ -199,104 +199,119 @@ def AdrStepTie (snr : Int) (p : List Nat) (peek : Option Gen.SessionMacs.Downlin
           = some ({ gs with uplink := { gs.uplink with pending := pend' } }, g', r.1.region, r.1.full, maskOf r.2.1, (r.2.2.2 : Int), r.2.2.1) ∧
         r.1.pending = Rx.natsOf pend' ∧ r.1.cfg = Rx.cfgOf g' ∧ pend'.length ≤ 15
 
-/-- the last LinkADRReq of a block (the next command is not a LinkADRReq; here: there is none) -/
-theorem adr_step_last (snr : Int) (b0 b1 b2 b3 : Nat) (h0 : b0 < 256) : AdrStepTie snr [b0, b1, b2, b3] none := by
+-- common start of the two arm proofs: unfold both sides up to the region's `channel_mask_update`
+set_option hygiene false in
+macro "adr_open" : tactic => `(tactic| (
   intro gs g full mask nA rfu c hrel hq hn
   have hck : Rt.ck .i32 ((nA : Int) + 1) = some ((nA : Int) + 1) := Rt.ck_i32 (by omega) (by omega)
   simp only [adrStepModel, byteAt, bind, Except.bind, pure, Except.pure, List.getElem?_cons_zero, List.getElem?_cons_succ]
   unfold Gen.SessionMacs.Session.handle_downlink_macs.while_step
   simp only [decCmd, hck, Option.bind_eq_bind, Option.bind_some, Gen.SessionMacs.MacRegionOps.channel_mask_update,
-    Int.toNat_natCast, natsOf_maskOf]
+    Int.toNat_natCast, natsOf_maskOf]))
+
+/-- normalisation after the case split on the update's verdict and on the RFU flag (both literals then) -/
+macro "adr_norm" : tactic => `(tactic|
+  simp only [isAdr, Option.isNone_none, Option.isNone_some, Bool.false_eq_true, if_false, if_true, Bool.not_true, Bool.not_false,
+    Gen.SessionMacs.LinkADRAnsCreator.new, Gen.SessionMacs.LinkADRAnsCreator.set_channel_mask_ack,
+    Gen.SessionMacs.LinkADRAnsCreator.set_data_rate_ack, Gen.SessionMacs.LinkADRAnsCreator.set_tx_power_ack])
+
+-- the end of a block with working mask `m1` and RFU flag `r` (a literal) after the update
+set_option hygiene false in
+macro "adr_tail " m1:term:max r:term:max : tactic => `(tactic| (
+  adr_norm
+  gen_match (drOfNatT (b0 % 16)) as PW hPW
+  gen_match (drOfNatT (b0 / 16)) as DRG hDRG
+  -- the data rate and the power the generated code selected are the model's
+  have hDm : DRG.map (fun d => d.toInt.toNat) = linkAdrDr c.cfg c.region.id (b0 / 16) := by
+    have hxk := drOfNatT_toInt (b0 / 16) (by omega)
+    generalize drOfNatT (b0 / 16) = x at hDRG hxk
+    rw [← hDRG, ← hxk]
+    cases x <;> first
+      | (simp only [Gen.SessionMacs.MacRegionOps.is_uplink_datarate, wrap_u8_dr]; exact drg_post _ (by decide) _ _)
+      | (simp [linkAdrDr, hrel.cfg, Rx.cfgOf, show DR._15.toInt.toNat = 15 from rfl]; done)
+  have hPm : PW.map (fun r => r.map (fun o => o.map Int.toNat)) = (linkAdrPw c.cfg c.region.id (b0 % 16)).toOption := by
+    have hxk := drOfNatT_toInt (b0 % 16) (by omega)
+    generalize drOfNatT (b0 % 16) = x at hPW hxk
+    rw [← hPW, ← hxk]
+    cases x <;> first
+      | (simp only [Gen.SessionMacs.MacRegionOps.check_tx_power, wrap_u8_dr]; exact pw_post _ (by decide) _ _)
+      | (simp [linkAdrPw, hrel.cfg, Rx.cfgOf, Except.toOption, pure, Except.pure, show DR._15.toInt.toNat = 15 from rfl]; done)
+  clear hPW hDRG
+  have hack0 := cmAck_tie c.region $m1 $r DRG
+  rw [hDm] at hack0
+  simp only [Bool.false_eq_true, if_false, if_true] at hack0
+  simp only [Gen.SessionMacs.MacRegionOps.channel_mask_validate, natsOf_maskOf, Option.pure_def, Option.bind_some,
+    finishLinkAdrBlock, byteAt, List.getElem?_cons_zero, bind, Except.bind, pure, Except.pure]
+  cases hpw : linkAdrPw c.cfg c.region.id (b0 % 16) with
+  | error e =>
+    rw [hpw] at hPm
+    have : PW = none := by simpa [Except.toOption] using hPm
+    simp only [linkAdrDecide_err_pw _ _ _ _ _ _ e hpw, this, Option.bind_none]
+  | ok pwm =>
+    rw [hpw] at hPm
+    obtain ⟨pw, rfl, hpwm⟩ : ∃ pw, PW = some pw ∧ pw.map (fun o => o.map Int.toNat) = pwm := by
+      cases PW with
+      | none => simp [Except.toOption] at hPm
+      | some pw => exact ⟨pw, rfl, by simpa [Except.toOption] using hPm⟩
+    simp only [Option.bind_some]
+    cases hack : linkAdrCmAck c.region $m1 $r (linkAdrDr c.cfg c.region.id (b0 / 16)) with
+    | error e =>
+      rw [hack] at hack0
+      first
+        | cases hack0
+        | simp only [← hack0, linkAdrDecide_err_ack _ _ _ _ _ _ pwm e hpw hack, Except.toOption, Option.bind_none]
+    | ok t11 =>
+      rw [hack] at hack0
+      first
+        | (cases hack0)
+        | rw [← hack0]
+      all_goals (
+        simp only [linkAdrDecide_ok _ _ _ _ _ _ pwm _ hpw hack, Except.toOption, Option.bind_some]
+        refine adr_close gs full
+          { cfg := decideCfg c.cfg _ (linkAdrDr c.cfg c.region.id (b0 / 16)) pwm,
+            region := decideReg c.region $m1 _ (linkAdrDr c.cfg c.region.id (b0 / 16)) pwm, pending := c.pending, full := c.full }
+          hrel.pending hrel.full hq _ _ ?_ nA _ (fun i s fl => rfl) _ ?_ _ ?_
+        · rw [← hDm, ← hpwm]
+          first
+            | (cases DRG <;> cases pw <;> rfl)
+            | (cases t11 <;> cases DRG <;> cases pw <;> rfl)
+        · dsimp only
+          rw [← hDm, ← hpwm]
+          first
+            | (cases DRG <;> cases pw <;> simp [decideCfg, Rx.cfgOf, hrel.cfg]; done)
+            | (cases t11 <;> cases DRG <;> cases pw <;> simp [decideCfg, Rx.cfgOf, hrel.cfg])
+        · dsimp only
+          rw [← hDm, ← hpwm]
+          first
+            | (cases DRG <;> cases pw <;> simp [decideReg, Gen.SessionMacs.MacRegionOps.channel_mask_set, natsOf_maskOf]; done)
+            | (cases t11 <;> cases DRG <;> cases pw <;>
+                simp [decideReg, Gen.SessionMacs.MacRegionOps.channel_mask_set, natsOf_maskOf]))))
+
+/-- the last LinkADRReq of a block (the next command is not a LinkADRReq; here: there is none) -/
+theorem adr_step_last (snr : Int) (b0 b1 b2 b3 : Nat) (h0 : b0 < 256) : AdrStepTie snr [b0, b1, b2, b3] none := by
+  adr_open
   cases hU : channelMaskUpdate c.region mask (b3 / 16 % 8) b1 b2 with
   | error e => simp [Except.toOption]
   | ok upd =>
     simp only [Except.toOption, Option.map_some, Option.bind_some]
-    gen_match upd as MM hMM
-    gen_match upd as MG hMG
-    have hT : (if MG.fst.isNone = true then (MG.snd, c.region, true) else (MG.snd, c.region, rfu)) = (maskOf MM.fst, c.region, MM.snd) := by
-      subst hMM hMG; cases upd <;> rfl
-    simp only [hT]
-    clear hT hMM hMG MG hU upd
-    obtain ⟨m1, rfu1⟩ := MM
-    simp only [isAdr, Bool.false_eq_true, if_false, Gen.SessionMacs.LinkADRAnsCreator.new, Gen.SessionMacs.LinkADRAnsCreator.set_channel_mask_ack,
-      Gen.SessionMacs.LinkADRAnsCreator.set_data_rate_ack, Gen.SessionMacs.LinkADRAnsCreator.set_tx_power_ack]
-    gen_match (drOfNatT (b0 % 16)) as PW hPW
-    gen_match (drOfNatT (b0 / 16)) as DRG hDRG
-    -- the data rate and the power the generated code selected are the model's
-    have hDm : DRG.map (fun d => d.toInt.toNat) = linkAdrDr c.cfg c.region.id (b0 / 16) := by
-      have hxk := drOfNatT_toInt (b0 / 16) (by omega)
-      generalize drOfNatT (b0 / 16) = x at hDRG hxk
-      rw [← hDRG, ← hxk]
-      cases x <;> first
-        | (simp only [Gen.SessionMacs.MacRegionOps.is_uplink_datarate, wrap_u8_dr]; exact drg_post _ (by decide) _ _)
-        | (simp [linkAdrDr, hrel.cfg, Rx.cfgOf, show DR._15.toInt.toNat = 15 from rfl]; done)
-    have hPm : PW.map (fun r => r.map (fun o => o.map Int.toNat)) = (linkAdrPw c.cfg c.region.id (b0 % 16)).toOption := by
-      have hxk := drOfNatT_toInt (b0 % 16) (by omega)
-      generalize drOfNatT (b0 % 16) = x at hPW hxk
-      rw [← hPW, ← hxk]
-      cases x <;> first
-        | (simp only [Gen.SessionMacs.MacRegionOps.check_tx_power, wrap_u8_dr]; exact pw_post _ (by decide) _ _)
-        | (simp [linkAdrPw, hrel.cfg, Rx.cfgOf, Except.toOption, pure, Except.pure, show DR._15.toInt.toNat = 15 from rfl]; done)
-    clear hPW hDRG
-    have hAg : (if (!rfu1) = true then Gen.SessionMacs.MacRegionOps.channel_mask_validate c.region (maskOf m1) DRG else pure false)
-        = (linkAdrCmAck c.region m1 rfu1 (linkAdrDr c.cfg c.region.id (b0 / 16))).toOption := by
-      rw [← hDm, cmAck_tie]
-      cases rfu1 <;> simp [Gen.SessionMacs.MacRegionOps.channel_mask_validate, natsOf_maskOf, Except.toOption]
-    simp only [hAg]
-    simp only [finishLinkAdrBlock, byteAt, List.getElem?_cons_zero, bind, Except.bind, pure, Except.pure]
-    cases hpw : linkAdrPw c.cfg c.region.id (b0 % 16) with
-    | error e =>
-      rw [hpw] at hPm
-      have : PW = none := by simpa [Except.toOption] using hPm
-      simp only [linkAdrDecide_err_pw _ _ _ _ _ _ e hpw, this, Option.bind_none]
-    | ok pwm =>
-      rw [hpw] at hPm
-      obtain ⟨pw, rfl, hpwm⟩ : ∃ pw, PW = some pw ∧ pw.map (fun o => o.map Int.toNat) = pwm := by
-        cases PW with
-        | none => simp [Except.toOption] at hPm
-        | some pw => exact ⟨pw, rfl, by simpa [Except.toOption] using hPm⟩
-      simp only [Option.bind_some]
-      cases hack : linkAdrCmAck c.region m1 rfu1 (linkAdrDr c.cfg c.region.id (b0 / 16)) with
-      | error e =>
-        simp only [linkAdrDecide_err_ack _ _ _ _ _ _ pwm e hpw hack, Except.toOption, Option.bind_none]
-      | ok t11 =>
-        simp only [linkAdrDecide_ok _ _ _ _ _ _ pwm t11 hpw hack, Except.toOption, Option.bind_some]
-        refine adr_close gs full
-          { cfg := decideCfg c.cfg t11 (linkAdrDr c.cfg c.region.id (b0 / 16)) pwm,
-            region := decideReg c.region m1 t11 (linkAdrDr c.cfg c.region.id (b0 / 16)) pwm, pending := c.pending, full := c.full }
-          hrel.pending hrel.full hq _ _ ?_ nA _ (fun i s fl => rfl) _ ?_ _ ?_
-        · rw [← hDm, ← hpwm]
-          cases t11 <;> cases DRG <;> cases pw <;> rfl
-        · show decideCfg _ _ _ _ = _
-          rw [← hDm, ← hpwm]
-          cases t11 <;> cases DRG <;> cases pw <;> simp [decideCfg, Rx.cfgOf, hrel.cfg]
-        · show decideReg _ _ _ _ _ = _
-          rw [← hDm, ← hpwm]
-          cases t11 <;> cases DRG <;> cases pw <;>
-            simp [decideReg, Gen.SessionMacs.MacRegionOps.channel_mask_set, natsOf_maskOf]
+    clear hU
+    cases upd with
+    | none => adr_tail mask true
+    | some m' =>
+      cases rfu with
+      | false => adr_tail m' false
+      | true => adr_tail m' true
 
 /-- a LinkADRReq followed by another one: counter, working mask and RFU flag move, nothing else -/
 theorem adr_step_more (snr : Int) (b0 b1 b2 b3 : Nat) (a : Gen.SessionMacs.LinkADRReqPayload) :
     AdrStepTie snr [b0, b1, b2, b3] (some (.LinkADRReq a)) := by
-  intro gs g full mask nA rfu c hrel hq hn
-  have hck : Rt.ck .i32 ((nA : Int) + 1) = some ((nA : Int) + 1) := Rt.ck_i32 (by omega) (by omega)
-  simp only [adrStepModel, byteAt, bind, Except.bind, pure, Except.pure, List.getElem?_cons_zero, List.getElem?_cons_succ]
-  unfold Gen.SessionMacs.Session.handle_downlink_macs.while_step
-  simp only [decCmd, hck, Option.bind_eq_bind, Option.bind_some, Gen.SessionMacs.MacRegionOps.channel_mask_update,
-    Int.toNat_natCast, natsOf_maskOf]
+  adr_open
   cases hU : channelMaskUpdate c.region mask (b3 / 16 % 8) b1 b2 with
   | error e => simp [Except.toOption]
   | ok upd =>
     simp only [Except.toOption, Option.map_some, Option.bind_some]
-    gen_match upd as MM hMM
-    gen_match upd as MG hMG
-    have hT : (if MG.fst.isNone = true then (MG.snd, c.region, true) else (MG.snd, c.region, rfu)) = (maskOf MM.fst, c.region, MM.snd) := by
-      subst hMM hMG; cases upd <;> rfl
-    simp only [hT]
-    clear hT hMM hMG MG hU upd
-    obtain ⟨m1, rfu1⟩ := MM
-    simp only [isAdr, if_true, Option.pure_def]
-    exact ⟨gs.uplink.pending, g, by rw [hrel.full]; simp, hrel.pending, hrel.cfg, hq⟩
+    cases upd <;> cases rfu <;> adr_norm <;>
+      exact ⟨gs.uplink.pending, g, by rw [hrel.full]; simp, hrel.pending, hrel.cfg, hq⟩
 
 /-- the LinkADRReq arm for every lookahead: a lookahead that is not a LinkADRReq is the end of the block -/
 theorem tieA_step_link_adr (snr : Int) (b0 b1 b2 b3 : Nat) (h0 : b0 < 256) (peek : Option Gen.SessionMacs.DownlinkMacCommand) :
